@@ -53,6 +53,11 @@ def expand(b, rnd, norders):
                 # so the same graph is run under other names, too
                 for ren in NAMESETS[:2 if norders == 1 else 4]:
                     out.append(dict(c, rename=ren))
+            if accmode != 'start':
+                # the same with no module exported (export=False): such modules are initialised by the server itself
+                # after the description has been built - their errors refuse the node like any other, a healthy
+                # node starts them like any other
+                out.append(dict(c, exported=[]))
             if accmode != 'never' and any(b['att'][m] for m in mods):
                 # the same with the attachments fixed by a subclass (bare class attribute) instead of the configuration
                 out.append(dict(c, fixed=[m for m in mods if b['att'][m]]))
